@@ -82,7 +82,7 @@ PROPS = {
                    'interval arithmetic (Coq Interval 4.6) runs inside the kernel VM; exact reals, rounding not modelled.',
     ),
     'C20': dict(
-        own_files=['Lemmas/LC20.v', 'Lemmas/SwameeJain.v', 'Props/C20.v'],
+        own_files=['Lemmas/LC20.v', 'Lemmas/SwameeJain.v', 'Lemmas/LIl.v', 'Lemmas/LHe.v', 'Lemmas/LWS.v', 'Props/C20.v'],
         corr=[dict(script='corr_gen.py', n=250, n_thorough=5000,
                    args=['WilsonStratified.Vsm_max', 'WilsonStratified.Vsm_max_f', 'WilsonStratified.Cvr_max', 'WilsonStratified.Vsm',
                          'WilsonStratified.Vsm_f', 'WilsonStratified.Erhg', 'WilsonStratified.stratified_head_loss', 'WilsonV50.w',
@@ -91,7 +91,7 @@ PROPS = {
         partial=['C20_V50_terminates: that the 4-digit-agreement loop of V50 ends (exists fuel with a Some result) on E is not proved; searched only',
                  'C20_V50_equation 0.5 %: proved is the exit condition (|ff_this - ff_last| < 1e-4 and the result is F applied to the last iterate); '
                  'the step from there to |V50/F(V50) - 1| <= 0.5 % needs the friction-factor elasticity bound and is searched only',
-                 'C20_ws_nonincreasing: the Wilson stratified excess gradient not rising with line speed is searched, not yet proved'],
+                 'C20_ws_nonincreasing is proved on the liquid side of the envelope (turbulent branch); outside it (Re <= 2320) it is searched only'],
         level_text='Proof (all reals, regenerated model): 0 <= Vsm <= Vsm_max with and without the friction-factor alternative; Vsm at Cvr_max equals '
                    'Vsm_max within 0.2 % on both branches of Eqn 6.20-36 (the defect repaired by the fix: commit made the second branch false); '
                    '0.05 <= Cvr_max <= 0.66; 0.25 <= M <= 1.7; the V50 loop, when it returns, returns F(last iterate) with the last two friction '
@@ -294,41 +294,45 @@ PROPS = {
                    'the real viewer and checks every clause of the property after every event.',
     ),
     'C02': dict(
-        own_files=['Lemmas/SwameeJain.v', 'Lemmas/LIl.v', 'Lemmas/LSettle.v', 'Lemmas/LC02.v', 'Props/C02.v'],
+        own_files=['Lemmas/SwameeJain.v', 'Lemmas/LIl.v', 'Lemmas/LSettle.v', 'Lemmas/LDefined.v', 'Lemmas/LFb.v', 'Lemmas/LC02.v', 'Props/C02.v'],
         corr=[dict(script='corr_gen.py', n=250, n_thorough=6000,
                    args=['Homogeneous.fluid_head_loss', 'Homogeneous.Erhg', 'Heterogeneous.vt_ruby', 'Heterogeneous.vth_RZ', 'Heterogeneous.Shr',
                          'Heterogeneous.Srs', 'Heterogeneous.Erhg', 'Stratified.fb_Erhg', 'Stratified.vls_FBSB', 'Framework.Cvs_Erhg',
                          'Framework.LDV', 'Framework.slip_ratio', 'Framework.Cvs_from_Cvt', 'Framework.Cvt_Erhg', 'Framework.pseudo_dlim']),
               dict(script='corr_slurry.py', n=12, n_thorough=200, args=['--parts', 'curves,graded'])],
         search='C02.py', budget_quick=300, budget_thorough=20000,
-        partial=['C02 fixed-bed model, LDV loops, sliding bed, homogeneous model, Srs/sqrtcx: their generated side-condition predicates (fb_Erhg_ok, '
-                 'LDV_ok, Erhg_ok ...) are regenerated with the model but not proved on E; decided on the real code by the search '
-                 '(every public call on envelope points, corners over-weighted)',
+        partial=['C02 LDV (four fixed-step loops) and vls_FBSB (Newton loop): their generated side-condition predicates (LDV_ok, vls_FBSB_ok) are '
+                 'regenerated with the model but not proved on E (every iterate must be shown positive); decided on the real code by the '
+                 'search (every public call on envelope points, corners over-weighted)',
                  'C02 delivered-concentration path in general: proved for coarse grains (d/Dp >= 0.06, where the sliding-flow weight is 0): '
                  'Cvt < Cvs < Cvb; for finer grains Cvs <= Cvb is the unproved upper half of C05; the exact zero of the Eqn 8.12-3 denominator '
                  'is a recorded finding',
-                 'C02 graded sand and the Slurry curve tables: compositions of the above over the pseudo-liquid; searched (every number of '
-                 'every table of random Slurry objects), not proved'],
-        level_text='Proof (regenerated model + its generated side-condition predicates): on the envelope the carrier-liquid gradient is defined and '
-                   'positive (turbulent branch, Re > 7000, logarithm argument in (0, 0.31)); terminal and hindered settling are defined and '
-                   'positive; the Richardson-Zaki exponent lies in (2.34, 4.7), hence KC > 0.58 and the hindered-settling term is defined for '
-                   'every Cvs <= 0.58; for coarse grains on the delivered-concentration path the slip ratio is the three-layer-model slip and '
-                   'Cvt < Cvs < Cvb strictly. The compositions are partial (searched).',
+                 'C02 graded sand and the Slurry curve tables: compositions of the above over the pseudo-liquid (whose viscosity can leave the '
+                 'envelope range); searched (every number of every table of random Slurry objects), not proved'],
+        level_text='Proof (regenerated model + its generated side-condition predicates): on the whole envelope the spatial-concentration path is '
+                   'defined -- Cvs_Erhg, its detailed result and Cvs_regime, i.e. the liquid gradient (turbulent branch, Re > 7000), the fixed-bed '
+                   'force balance (bed half-angle in (0.45, 2.05) from the table accuracy theorem of C19, every perimeter / area / hydraulic '
+                   'diameter positive, all three friction-factor logarithm arguments strictly inside (0,1)), the sliding bed, the heterogeneous '
+                   'model (Richardson-Zaki exponent in (2.34, 4.7) hence KC > 0.58 > Cvs; sqrtcx positive on every branch) and the homogeneous '
+                   'model, for both settings of both switches; settling velocities defined and positive; for coarse grains on the '
+                   'delivered-concentration path Cvt < Cvs < Cvb strictly. LDV, the Cvt path of finer grains, graded sand and the curve '
+                   'tables are partial (searched).',
         level_note='The side-condition predicates f_ok are emitted by the translator next to each function (non-zero divisors, positive log / power '
                    'arguments, in-range table keys). Model executed bit-exactly against the real functions, including inputs on which both raise. '
                    'Known finding: the exact zero of the Eqn 8.12-3 denominator (ZeroDivisionError), identified by its call site.',
     ),
     'C04': dict(
-        own_files=['Lemmas/SwameeJain.v', 'Lemmas/LIl.v', 'Lemmas/LSettle.v', 'Lemmas/LHe.v', 'Lemmas/LC01.v', 'Props/C04.v'],
+        own_files=['Lemmas/SwameeJain.v', 'Lemmas/LIl.v', 'Lemmas/LSettle.v', 'Lemmas/LHe.v', 'Lemmas/LHo.v', 'Lemmas/LDefined.v', 'Lemmas/LC01.v', 'Lemmas/LC05.v', 'Props/C04.v'],
         corr=[dict(script='corr_gen.py', n=250, n_thorough=6000,
                    args=['Homogeneous.fluid_head_loss', 'Homogeneous.Erhg', 'Heterogeneous.vt_ruby', 'Heterogeneous.vth_RZ', 'Heterogeneous.Erhg',
                          'Heterogeneous.sqrtcx', 'Stratified.fb_Erhg', 'Framework.Cvs_Erhg', 'Framework.Cvs_Erhg_dict', 'Framework.Cvt_Erhg'])],
         search='C04.py', budget_quick=400, budget_thorough=20000,
-        partial=['C04 homogeneous excess gradient between 0 and il: not proved (the lower bound is a thin-margin two-variable inequality in '
-                 'Rsd*Cvs and lambda); read for the homogeneous model proper (Eqn 8.7-8, no sliding-flow blend: above the onset the code blends '
-                 'toward musf = 0.415 by design and exceeds il); searched',
-                 'C04 fixed-bed excess gradient rises with line speed: not proved; searched with +1 % neighbour pairs',
-                 'C04 selected Erhg never negative: follows from Erhg_ho >= 0 (above) through the selection theorem; searched for Cvs and Cvt input',
+        partial=['C04 fixed-bed excess gradient rises with line speed: not proved (difference of two increasing functions; thin-bed corner); '
+                 'searched with +1 % neighbour pairs',
+                 'C04 selected Erhg never negative for delivered-concentration input: proved under Xi < 1, which is the unproved upper half of C05 '
+                 '(C04_delivered_nonneg_partial); searched',
+                 'C04 homogeneous bounds are proved for steel roughness (eps <= 4.5e-5 m, as the property states); for rougher pipes lambda can '
+                 'exceed 8/225 and the lower bound is not claimed',
                  'C04 quantitative no-jump clause (1e-7 relative input change -> < 1e-3 relative output change): proved is that the selection is '
                  '1-Lipschitz in the four model curves and that every branch threshold inside the models joins continuously; an elasticity '
                  'bound for the four curves themselves is not proved; searched with 1e-7 pairs at random points, on thresholds and across '
@@ -337,8 +341,10 @@ PROPS = {
                    'and strictly falls with pipe diameter (Swamee-Jain: lambda*Re^2 increasing, lambda decreasing in Re and in relative roughness); '
                    'Ruby-Zanke settling velocity strictly rises with grain size and with density; hindered settling is positive, below the free '
                    'value and strictly falls with concentration; the heterogeneous excess gradient strictly falls with line speed for both '
-                   'settings of both switches; the selected gradient is max(min(FB,SB,He),Ho), a 1-Lipschitz selection; the sliding-flow blend '
-                   'and both sqrtcx breakpoints join without a jump.',
+                   'settings of both switches and is positive; the homogeneous excess gradient (Eqn 8.7-8) lies between 0 and the liquid '
+                   'gradient (lambda <= 8/225 on the envelope with steel roughness makes the Talmon term sb <= 1 + Rsd Cvs); the selected '
+                   'gradient is max(min(FB,SB,He),Ho), a 1-Lipschitz selection, and is never negative for spatial-concentration input; the '
+                   'sliding-flow blend and both sqrtcx breakpoints join without a jump.',
         level_note='Model regenerated from the Python on every run and executed bit-exactly against the real functions. The search compares '
                    'neighbouring inputs on the real code, including pairs straddling every crossing of two regime curves.',
     ),
